@@ -149,7 +149,7 @@ with p_branches (n : nat) (ts : list tok) {struct n} : option (branches * body *
     end end.
 
 Definition parse_prog (ts : list tok) : option body :=
-  match p_body (24 * length ts + 24) ts with
+  match p_body (100 * length ts + 100) ts with
   | Some (b, []) => Some b
   | _ => None
   end.
